@@ -11,6 +11,7 @@ import (
 	"sort"
 	"strings"
 	"time"
+	_ "time/tzdata" // the daylight-saving scenarios must not depend on the host's zone database
 
 	"verifharness/core"
 	"verifharness/explore"
@@ -71,6 +72,32 @@ type syncScen struct {
 	Workers  int
 	Explicit bool   // explicit asset list (otherwise taken from the target)
 	Kind     string // memory | filesystem
+	Cal      int    // calendar of the snapshot dates: 0 = UTC midnights; 1 / 2 = local midnights in America/New_York where day 1 is the 23-hour / 25-hour day of 2024
+}
+
+var nyLoc = func() *time.Location {
+	l, err := time.LoadLocation("America/New_York") // from the embedded time/tzdata
+	if err != nil {
+		panic(err)
+	}
+	return l
+}()
+
+// calDay is day d of the scenario's calendar ("the day after" is a calendar notion: with daylight saving a day has 23 or 25 hours).
+func calDay(cal, d int) time.Time {
+	switch cal {
+	case 1:
+		return time.Date(2024, 3, 9+d, 0, 0, 0, 0, nyLoc) // day 1 = 10 March 2024, 23 hours
+	case 2:
+		return time.Date(2024, 11, 2+d, 0, 0, 0, 0, nyLoc) // day 1 = 3 November 2024, 25 hours
+	}
+	return day(d)
+}
+
+func calSnap(cal, d int) *asset.Snapshot {
+	sn := snap(d, 0)
+	sn.Date = calDay(cal, d)
+	return sn
 }
 
 func (s syncScen) String() string {
@@ -78,7 +105,11 @@ func (s syncScen) String() string {
 	for _, a := range s.Assets {
 		p = append(p, a.String())
 	}
-	return fmt.Sprintf("%s target, workers=%d, explicit=%v, assets=[%s]", s.Kind, s.Workers, s.Explicit, strings.Join(p, " "))
+	cal := ""
+	if s.Cal != 0 {
+		cal = fmt.Sprintf(", local-midnight dates across the %d-hour day", map[int]int{1: 23, 2: 25}[s.Cal])
+	}
+	return fmt.Sprintf("%s target, workers=%d, explicit=%v, assets=[%s]%s", s.Kind, s.Workers, s.Explicit, strings.Join(p, " "), cal)
 }
 
 func assetName(i int) string { return string(rune('A' + i)) }
@@ -143,7 +174,7 @@ func syncScenario(s syncScen) explore.Scenario {
 				if a.Source {
 					var sn []*asset.Snapshot
 					for d := 0; d < 4; d++ {
-						sn = append(sn, snap(d, 0))
+						sn = append(sn, calSnap(s.Cal, d))
 					}
 					source.Append(name, Feed(sn, 0))
 				}
@@ -153,7 +184,7 @@ func syncScenario(s syncScen) explore.Scenario {
 				if a.Target > 0 {
 					var sn []*asset.Snapshot
 					for d := 0; d < a.Target; d++ {
-						sn = append(sn, snap(d, 0))
+						sn = append(sn, calSnap(s.Cal, d))
 					}
 					base.Append(name, Feed(sn, 0))
 				}
@@ -166,7 +197,7 @@ func syncScenario(s syncScen) explore.Scenario {
 				if s.Explicit {
 					sy.Assets = append([]string{}, names...)
 				}
-				return sy.Run(source, target, day(syncDefaultStart))
+				return sy.Run(source, target, calDay(s.Cal, syncDefaultStart))
 			}
 			err1 = run()
 			err2 = run() // idempotence: a second run must add nothing
@@ -179,9 +210,14 @@ func syncScenario(s syncScen) explore.Scenario {
 				}
 				var days []int
 				for _, sn := range drainSnaps(ch) {
-					d := int(sn.Date.Sub(day(0)).Hours() / 24)
+					d := -1
+					for k := 0; k < 4; k++ {
+						if sn.Date.Equal(calDay(s.Cal, k)) {
+							d = k
+						}
+					}
 					days = append(days, d)
-					if !snapEq(sn, snap(d, 0)) {
+					if d < 0 || !snapEq(sn, calSnap(s.Cal, d)) {
 						readErr = fmt.Sprintf("asset %s holds a corrupted snapshot for day %d", name, d)
 					}
 				}
@@ -234,7 +270,7 @@ func syncScens(tier string) []syncScen {
 		for _, ex := range []bool{true, false} {
 			for _, a := range per {
 				for _, w := range []int{1, 2} {
-					out = append(out, syncScen{[]syncAsset{a}, w, ex, k})
+					out = append(out, syncScen{[]syncAsset{a}, w, ex, k, 0})
 				}
 			}
 			for _, a := range per {
@@ -247,18 +283,31 @@ func syncScens(tier string) []syncScen {
 						if !thorough && k == "filesystem" && !ex && w > 1 {
 							continue
 						}
-						out = append(out, syncScen{[]syncAsset{a, b}, w, ex, k})
+						out = append(out, syncScen{[]syncAsset{a, b}, w, ex, k, 0})
 					}
 				}
+			}
+		}
+	}
+	// "the day after the last date" across a daylight-saving change: dates are local midnights and the target's last
+	// date is the 23-hour (25-hour) day; the in-memory repositories keep the dates as given (scheduling is irrelevant here: one worker)
+	for _, cal := range []int{1, 2} {
+		for _, ex := range []bool{true, false} {
+			for _, a := range per {
+				if a.Fault {
+					continue
+				}
+				out = append(out, syncScen{[]syncAsset{a}, 1, ex, "memory", cal})
+				out = append(out, syncScen{[]syncAsset{a, {2, true, false}}, 1, ex, "memory", cal})
 			}
 		}
 	}
 	// a zero-byte asset file in a file-system target (e.g. created to register a new asset)
 	for _, ex := range []bool{true, false} {
 		for _, w := range []int{1, 2} {
-			out = append(out, syncScen{[]syncAsset{{-1, true, false}}, w, ex, "filesystem"})
-			out = append(out, syncScen{[]syncAsset{{-1, true, false}, {1, true, false}}, w, ex, "filesystem"})
-			out = append(out, syncScen{[]syncAsset{{2, true, false}, {-1, true, false}}, w, ex, "filesystem"})
+			out = append(out, syncScen{[]syncAsset{{-1, true, false}}, w, ex, "filesystem", 0})
+			out = append(out, syncScen{[]syncAsset{{-1, true, false}, {1, true, false}}, w, ex, "filesystem", 0})
+			out = append(out, syncScen{[]syncAsset{{2, true, false}, {-1, true, false}}, w, ex, "filesystem", 0})
 		}
 	}
 	// three assets: representative situations per asset on the file-system target (and in memory in the thorough tier)
@@ -270,10 +319,10 @@ func syncScens(tier string) []syncScen {
 		for _, b := range rep {
 			for _, c := range rep {
 				// three workers on three assets have > 20000 traces: thorough tier only, under the execution cap
-				out = append(out, syncScen{[]syncAsset{a, b, c}, 2, true, "filesystem"})
+				out = append(out, syncScen{[]syncAsset{a, b, c}, 2, true, "filesystem", 0})
 				if thorough {
-					out = append(out, syncScen{[]syncAsset{a, b, c}, 3, true, "filesystem"})
-					out = append(out, syncScen{[]syncAsset{a, b, c}, 2, true, "memory"})
+					out = append(out, syncScen{[]syncAsset{a, b, c}, 3, true, "filesystem", 0})
+					out = append(out, syncScen{[]syncAsset{a, b, c}, 2, true, "memory", 0})
 				}
 			}
 		}
@@ -406,8 +455,8 @@ func DebugSync() {
 	pprof.StartCPUProfile(f)
 	defer pprof.StopCPUProfile()
 	for _, s := range []syncScen{
-		{[]syncAsset{{0, true, false}, {1, true, false}}, 2, true, "memory"},
-		{[]syncAsset{{0, true, false}, {1, true, false}, {2, true, false}}, 3, true, "filesystem"},
+		{[]syncAsset{{0, true, false}, {1, true, false}}, 2, true, "memory", 0},
+		{[]syncAsset{{0, true, false}, {1, true, false}, {2, true, false}}, 3, true, "filesystem", 0},
 	} {
 		t0 := time.Now()
 		st := explore.DPOR(syncScenario(s), explore.Opts{Races: true, MaxExec: 20000})
